@@ -361,5 +361,5 @@ pub fn run(ctx: &Ctx) {
     ctx.exhaustive("grid_unary", 4 * n * 3, unary_nth, oracle);
     ctx.exhaustive("eighths_unary", 3 * 81 * 2 * 8, eighths_unary, oracle);
     ctx.exhaustive("eighths_pairs", 7 * 81 * 81, eighths_pairs, oracle);
-    ctx.random("random", ctx.pick(1_500_000, 10_000_000), random_case, oracle);
+    ctx.random("random", ctx.pick(1_500_000, 150_000_000), random_case, oracle);
 }
